@@ -403,7 +403,10 @@ def pick_box(rng, scan, fragment):
         gate = stochastic_gate(rng, n_in, n_out)
         return gate.dagger() if kind == "stochasticdag" else gate
     if kind == "cgeneric":
-        gate = generic_classical_gate(rng, rng.randint(0, 2), rng.randint(1, 2))
+        # (also without any wire: a classical number, which the mixed
+        # evaluation must NOT double)
+        gate = generic_classical_gate(rng, rng.randint(0, 2), rng.randint(
+            1, 2) if rng.random() < .8 else 0)
         return gate.dagger() if rng.random() < .4 else gate
     if kind == "scalar":
         return g.scalar(rand_complex(rng, 1.2))
@@ -604,6 +607,20 @@ def check_default_route(ctx, circuit, info, mixed_array=None, full=True):
         good = close(value.array, mixed_array)
     ctx.expect("default-route", good, is_mixed=bool(flag), want_mixed=want,
                eval_returned=cls, **info)
+    # the batch form, behind a pure circuit and without flags: every circuit
+    # of the batch still takes its own route
+    if good:
+        first = _Q["gates"].H
+        ok, both = lib(ctx, "pure.eval(circuit)", lambda: first.eval(circuit), info)
+        if ok:
+            fine = isinstance(both, list) and len(both) == 2\
+                and type(both[0]).__name__ == "Tensor"\
+                and type(both[1]).__name__ == cls\
+                and close(both[1].array, value.array)
+            ctx.expect("default-route", fine, call="pure.eval(circuit)",
+                       is_mixed=bool(flag), want_mixed=want,
+                       eval_returned=[type(x).__name__ for x in both]
+                       if isinstance(both, list) else type(both).__name__, **info)
     return flag
 
 
